@@ -199,7 +199,7 @@ impl Property for P {
             .boxed()
     }
     fn cases(&self, tier: Tier) -> u32 {
-        tier.pick(6000, 60000)
+        tier.pick(15000, 150000)
     }
     fn sweeps(&self, _tier: Tier) -> Vec<(String, Vec<Case>)> {
         let small = corpus::small_order_14().unwrap_or_default();
